@@ -844,8 +844,14 @@ impl Error {
             other => other,
         };
 
-        // Keep snippet coordinates aligned with parsers that ignore a leading UTF-8 BOM.
-        let text = text.strip_prefix('\u{FEFF}').unwrap_or(text);
+        // Keep snippet coordinates aligned with parsers that ignore a leading UTF-8 BOM: the mark
+        // of the stream stands at the start of line 1. A fragment that begins further down (the
+        // recent bytes of a reader) may begin with a U+FEFF that is a character of its line.
+        let text = if start_line <= 1 {
+            text.strip_prefix('\u{FEFF}').unwrap_or(text)
+        } else {
+            text
+        };
 
         fn push_region_for_location(
             regions: &mut Vec<CroppedRegion>,
